@@ -27,6 +27,7 @@ type Axiom struct {
 	Term *Term
 	Syms map[string]bool
 	Text string
+	PatSyms []map[string]bool
 }
 
 type Prelude struct {
@@ -99,7 +100,25 @@ func buildPrelude(u *Universe) (*Prelude, error) {
 			if l.Use != "" {
 				am = l.Use
 			}
-			p.axioms = append(p.axioms, &Axiom{Index: li, IsLemma: !l.Axiom, Name: l.Name, Mode: am, Term: t, Syms: termSyms(t), Text: l.Text})
+			ax := &Axiom{Index: li, IsLemma: !l.Axiom, Name: l.Name, Mode: am, Term: t, Syms: termSyms(t), Text: l.Text}
+			if t.Op == "forall" {
+				bound := map[string]bool{}
+				for _, b := range t.Bind {
+					bound[b.Op] = true
+				}
+				for _, pat := range t.Pats {
+					ps := map[string]bool{}
+					for _, e := range pat {
+						for sname := range termSyms(e) {
+							if !bound[sname] {
+								ps[sname] = true
+							}
+						}
+					}
+					ax.PatSyms = append(ax.PatSyms, ps)
+				}
+			}
+			p.axioms = append(p.axioms, ax)
 		}
 	}()
 	return p, err
@@ -198,11 +217,27 @@ func (p *Prelude) buildQuery(o *Obligation, wantModel bool, sizeCap int) string 
 				continue
 			}
 			rel := false
-			for s := range a.Syms {
-				if used[s] {
-					if _, isFun := u.Specs.Funs[s]; isFun || strings.HasPrefix(s, "g.") || strings.HasPrefix(s, "s.") || autoRelevant(s) {
+			if len(a.PatSyms) > 0 {
+				for _, ps := range a.PatSyms {
+					all := true
+					for sname := range ps {
+						if !used[sname] && !strings.HasPrefix(sname, "lit!") {
+							all = false
+							break
+						}
+					}
+					if all {
 						rel = true
 						break
+					}
+				}
+			} else {
+				for sname := range a.Syms {
+					if used[sname] {
+						if _, isFun := u.Specs.Funs[sname]; isFun || strings.HasPrefix(sname, "g.") || strings.HasPrefix(sname, "s.") || autoRelevant(sname) {
+							rel = true
+							break
+						}
 					}
 				}
 			}
@@ -227,7 +262,7 @@ func (p *Prelude) buildQuery(o *Obligation, wantModel bool, sizeCap int) string 
 	// extensionality instances for Str equalities in lines mode
 	var extra []*Term
 	if mode == "lines" {
-		extra = linesExtInstances(terms)
+		extra = linesExtInstances([]*Term{goal})
 		allTerms = append(allTerms, extra...)
 	}
 
